@@ -21,6 +21,9 @@ type c10Op struct {
 	Kind   string `json:"kind"` // pub0 pub1 pub2 sub unsub ping handle stats done err client
 	Yields int    `json:"yields,omitempty"`
 	Len    int    `json:"len,omitempty"`
+	// DeadlineUs > 0: the call's context expires after that many microseconds (a request given up while its
+	// acknowledgement is on the way); 0 = generous deadline
+	DeadlineUs int `json:"deadlineUs,omitempty"`
 }
 
 type c10Case struct {
@@ -40,7 +43,8 @@ func c10Gen(rt *rapid.T, reconnect bool) c10Case {
 	g := rapid.IntRange(2, 8).Draw(rt, "goroutines")
 	for i := 0; i < g; i++ {
 		ops := rapid.SliceOfN(rapid.Custom(func(rt *rapid.T) c10Op {
-			return c10Op{Kind: rapid.SampledFrom(c10Kinds).Draw(rt, "kind"), Yields: rapid.IntRange(0, 3).Draw(rt, "y"), Len: rapid.SampledFrom([]int{0, 1, 10, 200, 3000, 4096, 5000, 20000, 70000}).Draw(rt, "len")}
+			return c10Op{Kind: rapid.SampledFrom(c10Kinds).Draw(rt, "kind"), Yields: rapid.IntRange(0, 3).Draw(rt, "y"), Len: rapid.SampledFrom([]int{0, 1, 10, 200, 3000, 4096, 5000, 20000, 70000}).Draw(rt, "len"),
+				DeadlineUs: rapid.SampledFrom([]int{0, 0, 0, 0, 1, 5, 20, 50, 200}).Draw(rt, "deadlineUs")}
 		}), 1, 8).Draw(rt, "ops")
 		c.Threads = append(c.Threads, ops)
 	}
@@ -95,7 +99,11 @@ func c10RunOps(ctx context.Context, c c10Case, cli Client, extra func(op c10Op, 
 						break
 					}
 				}
-				octx, cancel := context.WithTimeout(ctx, 5*time.Second)
+				dl := 5 * time.Second
+				if op.DeadlineUs > 0 {
+					dl = time.Duration(op.DeadlineUs) * time.Microsecond
+				}
+				octx, cancel := context.WithTimeout(ctx, dl)
 				switch op.Kind {
 				case "pub0", "pub1", "pub2":
 					q := QoS(op.Kind[3] - '0')
